@@ -7,7 +7,8 @@ from .. import symx
 from ..run import Harness
 from ..symx import choice, SymPyInt, SymPyFloat, SymStr
 from ..tree import Arr, Frame, LoD, Opaque, Raised
-from .common import BV, T, cell_ident, kind_of
+from .common import BV, FP, T, cell_ident, kind_of
+from ..symx import ident
 from .c15 import same_item, v_ident
 
 ALIASES = {
@@ -47,34 +48,61 @@ def json_value(ctx, tag):
     if how == "none": return None
     return choice(f"{tag}_s", ["a", "b"])
 
+def as_float(cell, dtype):
+    """the float64 value DataFrameColumn(values, float) stores for a cell of the unrestricted read"""
+    if dtype == "float64": return cell
+    if dtype == "int64": return z3.fpSignedToFP(z3.RNE(), BV(cell), z3.Float64())
+    if dtype == "bool": return z3.If(cell, symx.fpval(1.0), symx.fpval(0.0))
+    if cell is None: return symx.fpval(float("nan"))
+    if isinstance(cell, (SymPyInt, int)): return z3.fpSignedToFP(z3.RNE(), BV(cell), z3.Float64())
+    raise symx.HarnessError(f"as_float: unexpected cell {cell!r} of dtype {dtype}")
+
 class Restrict(Harness):
     prop = "C14"; opname = "read_restrict"
-    def __init__(self, reader, maxn):
-        self.reader = reader; self.maxn = maxn
-        self.name = f"C14.restrict.{reader}.n{maxn}"
-        self.bounds = {"records": f"0..{maxn}", "keys": "ragged subsets of a, b, c", "restriction": "every ordered subset of a, b, c, z"}
+    def __init__(self, reader, maxn, typed=False):
+        self.reader = reader; self.maxn = maxn; self.typed = typed
+        self.name = f"C14.restrict.{reader}.n{maxn}" + (".typed" if typed else "")
+        self.bounds = {"records": f"0..{maxn}", "keys": "ragged subsets of a, b, c", "restriction": "ordered subsets of a, b, c, z",
+                       "type map": "none / float / a user callable on one or two keys (DataFrame.from_json: float on requested columns)"}
         self.symbolic = ["integer values"]; self.choice_dims = ["record shapes", "requested columns and their order"]
         self.goals = {"DataFrame.from_json": ["data_frame.py:DataFrame.from_json"], "ListOfDicts.from_json": ["list_of_dicts.py:ListOfDicts.from_json"],
                       "ListOfDicts.read_csv": ["list_of_dicts.py:ListOfDicts.read_csv"]}[reader]
     def build(self, ctx):
         n = choice("n", range(self.maxn + 1))
-        cols = list(choice("cols", [("a",), ("c", "a"), ("b", "z"), ("z",), ("a", "b", "c"), ("b", "a")]))
+        cols = list(choice("cols", [("a",), ("c", "a"), ("b", "z"), ("z",), ("a", "b", "c"), ("b", "a")] if not self.typed else [("c", "a"), ("a", "b", "c"), ("b", "z")]))
+        # type / dtype map: "float" is the builtin (its argument is concretised by CPython's float()), "shift" is a
+        # user-supplied callable (v -> v + 1000, text -> text + "!") that stays symbolic.  For DataFrame.from_json the map
+        # only names columns that are requested and present (a map entry for an unread column raises KeyError there; not examined)
+        pool = [(("c", "shift"),), (("a", "float"),), (("c", "float"), ("a", "shift")), (("z", "shift"),)]
+        if self.reader == "DataFrame.from_json":
+            pool = [(("a", "float"),), (("c", "float"), ("a", "float"))]
+        if self.reader == "ListOfDicts.from_json":
+            # float() of a symbolic int would have to be concretised (CPython demands a real float): the callable only
+            pool = [(("c", "shift"),), (("a", "shift"),), (("c", "shift"), ("a", "shift")), (("z", "shift"),)]
+        types = [list(x) for x in choice("types", pool)] if self.typed else []
+        if self.reader == "DataFrame.from_json":
+            types = [t for t in types if t[0] in cols]
+        typed = {k for k, _ in types}
         if self.reader == "ListOfDicts.read_csv":
             header = choice("header", [True, False])
             names = ["a", "b", "c"]
-            rows = ([names] if header else []) + [[choice(f"r{i}{k}", ["1", ""]) if k != "b" else "x" for k in names] for i in range(n)]
-            return {"reader": self.reader, "records": None, "rows": rows, "header": header, "cols": cols}
+            rows = ([names] if header else []) + [[choice(f"r{i}{k}", ["1", ""] if k not in typed else ["1", "25"]) if k != "b" else "x" for k in names] for i in range(n)]
+            return {"reader": self.reader, "records": None, "rows": rows, "header": header, "cols": cols, "types": types}
         recs = []
         for i in range(n):
             rec = {}
-            for k in choice(f"keys{i}", [("a", "b", "c"), ("c", "a"), ("b",)]):
-                rec[k] = json_value(ctx, f"v{i}{k}")
+            for k in choice(f"keys{i}", [("a", "b", "c"), ("c", "a"), ("b",)] if not self.typed else [("a", "b", "c"), ("c", "a")]):
+                rec[k] = json_value(ctx, f"v{i}{k}") if (k not in typed or self.reader.startswith("DataFrame")) else SymPyInt(symx.sym_i64(f"v{i}{k}"))
             recs.append(rec)
-        return {"reader": self.reader, "records": recs, "cols": cols}
+        if self.reader == "DataFrame.from_json" and types:
+            have = {k for r in recs for k in r}
+            types = [t for t in types if t[0] in have]
+        return {"reader": self.reader, "records": recs, "cols": cols, "types": types}
     def spec(self, inp, out):
         if isinstance(out, Raised): return [(f"does not raise ({out.type}: {out.msg[:80]})", T(False))]
         full, part = out["full"], out["part"]
         cols = inp["cols"]
+        types = dict(tuple(t) for t in inp.get("types") or [])
         cl = []
         if isinstance(full, Frame):
             want = [c for c in full.names if c in cols]
@@ -82,6 +110,14 @@ class Restrict(Harness):
             for nm in want:
                 if nm not in part.cols: continue
                 a, b = part.cols[nm], full.cols[nm]
+                if nm in types:
+                    # read everything, select, cast: float64 column; None -> NaN, integers converted, floats kept
+                    cl.append((f"{nm}: float64 as requested by dtypes", T(a.dtype == "float64")))
+                    cl.append((f"{nm}: same length", T(len(a) == len(b))))
+                    if a.dtype == "float64" and len(a) == len(b):
+                        for r in range(len(a)):
+                            cl.append((f"{nm}[{r}] equals the value read without restriction, cast to float", ident(a.cells[r], as_float(b.cells[r], b.dtype))))
+                    continue
                 cl.append((f"{nm}: same dtype as in the full read", T(a.dtype == b.dtype)))
                 cl.append((f"{nm}: same length", T(len(a) == len(b))))
                 if a.dtype == b.dtype and len(a) == len(b):
@@ -94,8 +130,20 @@ class Restrict(Harness):
                 exp = {k: v for k, v in f.items() if k in cols}
                 cl.append((f"item {i}: exactly the requested keys present in the file", T(set(p) == set(exp))))
                 for k in exp:
-                    if k in p:
+                    if k not in p: continue
+                    t = types.get(k)
+                    if t is None:
                         cl.append((f"item {i}: value of {k!r} stays under its own name", v_ident(p[k], exp[k]) if not isinstance(exp[k], str) else T(p[k] == exp[k])))
+                    elif isinstance(exp[k], str):
+                        if t == "float":
+                            cl.append((f"item {i}: value of {k!r} is the unrestricted value cast with {t}", ident(FP(p[k]), symx.fpval(float(exp[k]))) if isinstance(p[k], (float, SymPyFloat)) else T(False)))
+                        else:
+                            cl.append((f"item {i}: value of {k!r} is the unrestricted value cast with {t}", T(type(p[k]) is str and p[k] == exp[k] + "!")))
+                    elif t == "shift":
+                        cl.append((f"item {i}: value of {k!r} is the unrestricted value cast with {t}", T(isinstance(p[k], (int, SymPyInt))) if not isinstance(p[k], (int, SymPyInt)) else BV(p[k]) == BV(exp[k]) + 1000))
+                    else:
+                        isf = isinstance(p[k], (float, SymPyFloat))
+                        cl.append((f"item {i}: value of {k!r} is the unrestricted value cast with {t}", ident(FP(p[k]), z3.fpSignedToFP(z3.RNE(), BV(exp[k]), z3.Float64())) if isf else T(False)))
         return cl
 
 class GeoRestrict(Harness):
@@ -135,4 +183,5 @@ def harnesses(tier):
     n = 2 if tier == "quick" else 3
     for r in ("DataFrame.from_json", "ListOfDicts.from_json", "ListOfDicts.read_csv"):
         hs.append(Restrict(r, n))
+        hs.append(Restrict(r, n, typed=True))
     return hs
